@@ -287,13 +287,13 @@ func faultHandler(w *workerCtx, line []byte) (any, error) {
 	select {
 	case derr = <-p.Done:
 		finished = true
-	case <-time.After(3 * time.Second):
+	case <-idleAfter(1 * time.Second):
 	case serr := <-srvErr:
 		_ = serr
 		select {
 		case derr = <-p.Done:
 			finished = true
-		case <-time.After(1500 * time.Millisecond):
+		case <-idleAfter(1 * time.Second):
 		}
 	}
 	if !finished {
@@ -302,7 +302,7 @@ func faultHandler(w *workerCtx, line []byte) (any, error) {
 		select {
 		case derr = <-p.Done:
 			finished = true // the receiver's own verdict stands, whatever it is
-		case <-time.After(10 * time.Second):
+		case <-idleAfter(10 * time.Second):
 		}
 	}
 	switch {
